@@ -95,6 +95,15 @@ Theorem C18_file_roundtrip_ok : forall E pkg P, package_ok E P -> env_safe E -> 
   roundtrip_ok pkg (map o_of P) = true.
 Proof. exact idl_roundtrip_ok. Qed.
 Print Assumptions C18_file_roundtrip_ok.
+(* sequences of conversions in one process: whatever packages were converted before and after
+   (arbitrary ones: colliding struct names, other weak inputs, invalid signatures), a package that
+   meets the hypotheses comes back — the property is per file, history does not matter *)
+Theorem C18_sequence_roundtrip : forall (before after : list (string * list mobject)) E pkg P,
+  package_ok E P -> env_safe E -> is_pkg_name pkg = true ->
+  exists text, nth_error (convert_seq (before ++ (pkg, map o_of P) :: after)) (List.length before)
+               = Some (Some (text, IOk (map norm_o P))).
+Proof. exact idl_sequence_roundtrip. Qed.
+Print Assumptions C18_sequence_roundtrip.
 (* the four pieces of the composition, as theorems of their own *)
 (* (a) registration is the identity on names and collects the structs, without name collisions *)
 Theorem C18_registration_identity : forall E inames t s,
@@ -140,6 +149,21 @@ Definition ex_objs : list mobject :=
 Theorem C18_file_roundtrip_partial : roundtrip_ok "robot" ex_objs = true.
 Proof. vm_compute. reflexivity. Qed.
 Print Assumptions C18_file_roundtrip_partial.
+
+(* a sequence evaluated: two services with different structs named Status in one package (the second
+   one is renamed Status_0: the recorded weakness colliding_struct_names), then each service alone —
+   alone, each keeps the name Status *)
+Definition ex_motor : list mobject :=
+  [ {| mo_name := "Motor"; mo_methods := [ {| mm_uid := 100; mm_name := "status"; mm_params := "()"; mm_ret := "(fb)<Status,temperature,stiff>"; mm_pnames := None |} ];
+       mo_signals := []; mo_props := [] |} ].
+Definition ex_battery : list mobject :=
+  [ {| mo_name := "Battery"; mo_methods := [ {| mm_uid := 100; mm_name := "level"; mm_params := "()"; mm_ret := "(ib)<Status,charge,plugged>"; mm_pnames := None |} ];
+       mo_signals := []; mo_props := [] |} ].
+Theorem C18_sequence_example :
+  seq_roundtrip_ok [("p", ex_motor ++ ex_battery); ("p", ex_motor); ("p", ex_battery); ("p", ex_battery ++ ex_motor); ("p", ex_motor)]%list
+  = [false; true; true; false; true].
+Proof. vm_compute. reflexivity. Qed.
+Print Assumptions C18_sequence_example.
 
 (* identifiers are identifiers: the words that structure an IDL file, the names of its basic types and
    Go's keywords are names like any other (instances of the file theorem's hypotheses, evaluated):
